@@ -144,65 +144,100 @@ def _rev_select(fn, e):
 
 
 def quantile(run, F):
+    """vquantile as a decision table: one row per (half, i == j, method); values compared as
+    polynomials over the selected element m = sel.1 and the neighbour vi = extreme of sel.0."""
+    from algebra import parse_poly, defs_of
     fn = F.one('VecAggValidExt::vquantile')
-    s = src(fn.hir)
     t = N.tbl(fn)
-    # n == 0 -> NaN before any selection
-    ok0 = 'if (n == 0) { return v1::Ok(f64::NAN); }' in s and \
-        s.index('if (n == 0) { return v1::Ok(f64::NAN); }') < s.index('select_nth_unstable_by')
+    NV = 'self.titer().count_valid()'
+    L1 = '(%s - 1)' % NV
+    RANGE = '0...=1..contains(q)'
+    err = [(cs, l, ef) for cs, l, ef in t if ('!' + RANGE) in cs]
+    ok_r = len(err) == 1 and err[0][0] == frozenset({'!' + RANGE}) and 'Err(' in err[0][1] and not err[0][2] and \
+        all(RANGE in cs for cs, l, ef in t if ('!' + RANGE) not in cs)
+    run.ob('NULL.first-test', fn, 'vquantile: q outside [0,1] is an error', ok_r, fn.loc(),
+           'range test first: %s' % [(sorted(cs), l[:20]) for cs, l, ef in err])
+    rest0 = [(cs - {RANGE}, l, ef) for cs, l, ef in t if ('!' + RANGE) not in cs]
+
+    def count_only(c):
+        return dtree.holds(c, {NV: 0}) is not None and NV in c
+    # a row belongs to the empty case when its conditions on the valid count hold at 0
+    rest, empty = [], []
+    ok0 = True
+    for cs, l, ef in rest0:
+        cc = {c for c in cs if count_only(c)}
+        at0 = all(dtree.holds(c, {NV: 0}) for c in cc) if cc else None
+        pos = all(all(dtree.holds(c, {NV: k}) for c in cc) for k in (1, 2, 3, 7)) if cc else None
+        if at0 and not pos:
+            empty.append((cs - cc, l, ef))
+        elif pos and not at0:
+            rest.append((cs - cc, l, ef))
+        else:
+            ok0 = False
+    ok0 = ok0 and len(empty) == 1 and not empty[0][0] and empty[0][1].endswith('Ok(NULL)') and \
+        not any('select_nth' in e for e in empty[0][2])
     run.ob('NULL.first-test', fn, 'vquantile: no valid element -> null before any selection', ok0,
            fn.loc(), 'early return on n == 0')
-    rng = '!RangeInclusive::new(0., 1.).contains(&q)' in s or 'contains(&q)' in s
-    run.ob('NULL.first-test', fn, 'vquantile: q outside [0,1] is an error', rng and 'tensure' not in s and
-           s.index('contains(&q)') < s.index('count_valid'), fn.loc(), 'range test first')
-    run.ob('QNT.index', fn, 'count is count_valid and position is (n-1)*q',
-           'let n = self.titer().count_valid();' in s and 'let len_1 = (n - 1).f64();' in s and
-           s.count('let q_idx = (len_1 * q);') == 2 and
-           s.count('let (i, j) = (q_idx.floor().usize(), q_idx.ceil().usize());') == 2 and
-           'let q = (1. - q);' in s, fn.loc(), 'lets of the two arms')
-    # positional reads
-    idx = [x for x in walk(fn.hir) if x.get('k') == 'Index' and 'slc' in src(peel(x['ch'][0]))]
+    idx = [x for x in walk(fn.hir) if x.get('k') == 'Index']
     run.ob('ORD.positional', fn, 'no fixed-position read of the working copy', not idx,
            loc(idx[0]) if idx else fn.loc(), 'positional reads: %s' % [src(x) for x in idx])
-    arms = [x for x in walk(fn.hir) if x.get('k') == 'If' and src(peel(x['ch'][0])) == '(q <= 0.5)']
-    if len(arms) != 1:
-        run.ob('QNT.index', fn, 'two half arms', False, fn.loc(), 'no `if q <= 0.5`')
-        return
-    lo, hi = src(arms[0]['ch'][1]), src(arms[0]['ch'][2])
-    run.ob('QNT.index', fn, 'lower-half arm',
-           'slc.select_nth_unstable_by(j, |va, vb| va.sort_cmp(vb))' in lo and
-           'head.titer().vmax()' in lo and 'if (i != j)' in lo and 'return v1::Ok(m.clone().cast())' in lo,
-           loc(arms[0]['ch'][1]), lo[:160])
-    run.ob('QNT.index', fn, 'upper-half arm (mirror)',
-           'slc.select_nth_unstable_by(j, |va, vb| va.sort_cmp_rev(vb))' in hi and
-           'head.titer().vmin()' in hi and 'if (i != j)' in hi, loc(arms[0]['ch'][2]), hi[:160])
-    # mirrored arm: Lower -> m (the j-th from the top), Higher -> vi
-    m2 = [x for x in walk(arms[0]['ch'][2]) if x.get('k') == 'Match' and src(peel(x['ch'][0])) == 'method']
-    ok = len(m2) == 1
-    if ok:
-        a = {dtree.pat_src(y['pat']).split('::')[-1]: src(y['body']) for y in m2[0]['arms']}
-        ok = a.get('Lower', '').startswith('return v1::Ok(m.clone().cast())') and \
-            a.get('Higher', '').startswith('return v1::Ok(vi)')
-    run.ob('QNT.interp', fn, 'mirrored arm swaps lower / higher', ok, loc(arms[0]['ch'][2]),
-           str(a if m2 else None)[:200])
-    # final interpolation
-    mf = [x for x in walk(fn.hir) if x.get('k') == 'Match' and src(peel(x['ch'][0])) == 'method'
-          and not any(y is x for y in walk(arms[0]))]
-    ok = len(mf) == 1
-    det = ''
-    if ok:
-        a = {dtree.pat_src(y['pat']).split('::')[-1]: y['body'] for y in mf[0]['arms']}
-        sym = lambda z: Poly.atom(('sym', z))
-        env = Env()
-        lin = norm(try_ok(a['Linear']), env) if 'Linear' in a else None
-        qi, qj = sym('i') * sym('len_1').inv(), sym('j') * sym('len_1').inv()
-        want = sym('vi') + (sym('vj') - sym('vi')) * (sym('q') - qi) * (qj - qi).inv()
-        ok = lin == want and src(try_ok(a.get('Lower', {}))) == 'vi' and \
-            src(try_ok(a.get('Higher', {}))) == 'vj' and \
-            norm(try_ok(a['MidPoint']), Env()) == (sym('vi') + sym('vj')) * Poly.const(2).inv()
-        det = 'linear = %s' % (lin.show() if lin else None)
-        ok = ok and set(a) == {'Linear', 'Lower', 'Higher', 'MidPoint'}
-    run.ob('QNT.interp', fn, 'interpolation formulas', ok, fn.loc(), det)
+    sym = lambda z: Poly.atom(('sym', z))
+    seen = {}
+    bad_idx, bad_val = [], []
+    for cs, leaf, ef in rest:
+        half = 'lo' if '(q <= 0.5)' in cs else 'hi' if '(0.5 < q)' in cs else '?'
+        Q = 'q' if half == 'lo' else '(1. - q)'
+        prod = '(%s * %s)' % tuple(sorted((Q, L1)))
+        I, J = prod + '.floor().usize()', prod + '.ceil().usize()'
+        defs = defs_of(ef)
+        sel = [(k, v) for k, v in defs.items() if 'select_nth_unstable_by(' in v]
+        pure = {k: v for k, v in defs.items() if 'select_nth' not in v and 'collect_trusted' not in v}
+
+        def expand(x, depth=0):
+            for k, v in pure.items():
+                x = re.sub(r"\b%s\b(?!')" % k, lambda _m: v, x)
+            return x if depth > 3 or not any(re.search(r"\b%s\b" % k, x) for k in pure) else expand(x, depth + 1)
+        csx = {expand(c) for c in cs}
+        eq = ('(%s == %s)' % (J, I) in csx) or ('(%s == %s)' % (I, J) in csx)
+        ne = ('(%s != %s)' % (J, I) in csx) or ('(%s != %s)' % (I, J) in csx)
+        meth = [c.split('::')[-1] for c in cs if c.startswith('method is ')]
+        cmpname = 'sort_cmp' if half == 'lo' else 'sort_cmp_rev'
+        copy = [k for k, v in defs.items() if v == 'self.titer().collect_trusted_vec1()']
+        ok_sel = len(sel) == 1 and len(copy) == 1 and expand(sel[0][1]) == \
+            '%s.try_as_slice_mut().select_nth_unstable_by(%s, |a0, a1| a0.%s(a1))' % (copy[0], J, cmpname)
+        if half == '?' or eq == ne or not ok_sel:
+            bad_idx.append((half, sorted(csx)[:2], [v[:80] for k, v in sel]))
+            continue
+        S = sel[0][0]
+        m_ = '%s.1' % S
+        vi_ = '%s.0.titer().%s().map(|a0| a0)' % (S, 'vmax' if half == 'lo' else 'vmin')
+        m, vi = sym(m_), sym(vi_)
+        inner = re.fullmatch(r'(?:v1::)?Ok\((.*)\)', leaf)
+        val = parse_poly(expand(inner.group(1)), {}) if inner else None
+        if eq:
+            key = (half, 'i==j')
+            want = m
+        else:
+            if len(meth) != 1:
+                bad_idx.append((half, 'method', sorted(cs)))
+                continue
+            key = (half, meth[0])
+            qi, qj = sym(I) * parse_poly(L1).inv(), sym(J) * parse_poly(L1).inv()
+            want = {'Linear': vi + (m - vi) * (parse_poly(Q) - qi) * (qj - qi).inv(),
+                    'MidPoint': (vi + m) * Poly.const(2).inv(),
+                    # i-th and j-th order statistics; in the mirrored half they swap roles
+                    'Lower': vi if half == 'lo' else m,
+                    'Higher': m if half == 'lo' else vi}.get(meth[0])
+        seen[key] = seen.get(key, 0) + 1
+        if val is None or want is None or val != want:
+            bad_val.append('%s/%s: got %s' % (key[0], key[1], val.show()[:120] if val is not None else leaf[:60]))
+    want_keys = {(h, k) for h in ('lo', 'hi') for k in ('i==j', 'Linear', 'MidPoint', 'Lower', 'Higher')}
+    run.ob('QNT.index', fn, 'position (n-1)*q, i = floor, j = ceil; select_nth(j) with the half\'s comparator',
+           not bad_idx and set(seen) == want_keys, fn.loc(),
+           '%d rows over %s' % (sum(seen.values()), sorted(seen)) + ('' if not bad_idx else ' ; unrecognised: %s' % bad_idx[:2]))
+    run.ob('QNT.interp', fn, 'interpolation formulas', not bad_val and set(seen) == want_keys, fn.loc(),
+           'linear vi + (vj-vi)(q-qi)/(qj-qi), midpoint (vi+vj)/2, lower / higher = the i-th / j-th '
+           '(swapped in the mirrored half)' + ('' if not bad_val else ' ; ' + '; '.join(bad_val[:3])))
 
 
 def try_ok(e):
@@ -239,91 +274,134 @@ def norm(e, env):     # noqa: F811  (local wrapper honouring _Subst)
 
 def rank(run, F):
     fn = F.one('MapValidVec::vrank')
-    s = src(fn.hir)
-    arms = [x for x in walk(fn.hir) if x.get('k') == 'If' and src(peel(x['ch'][0])) == '!pct'
-            and len(x['ch']) == 3]
-    ok = len(arms) == 1
-    run.ob('RANK.arms', fn, 'plain / pct arms', ok, fn.loc(), '%d `if !pct`' % len(arms))
+    env0 = N.self_env(fn)
+    arms_if = [x for x in walk(fn.hir) if x.get('k') == 'If' and len(x['ch']) == 3 and
+               dtree.conj(x['ch'][0], dict(dtree.env_at(fn.hir, x, env0))) in (['pct'], ['!pct'])]
+    ok = len(arms_if) == 1
+    run.ob('RANK.arms', fn, 'plain / pct arms', ok, fn.loc(), '%d dispatch(es) on `pct`' % len(arms_if))
+    plain_s = pct_s = ''
     if ok:
-        # seed the alpha names with everything bound outside the two arms
-        names = {}
-        for p in fn.params:
-            for b in _pat_binds(p):
-                names.setdefault(b['local'], 'o%d' % len(names))
-        def seed(e):
-            if e is arms[0]['ch'][1] or e is arms[0]['ch'][2]:
-                return
-            if e.get('k') == 'Block':
-                for st in e.get('stmts', []):
-                    if st['k'] == 'Let':
-                        for b in _pat_binds(st['pat']):
-                            names.setdefault(b['local'], 'o%d' % len(names))
-            from facts import children
-            for c in children(e):
-                seed(c)
-        seed(fn.hir)
-        a = src(alpha(arms[0]['ch'][1], dict(names)))
-        b = src(alpha(arms[0]['ch'][2], dict(names)))
-        cnt = re.search(r'let (x\d+) = self\.titer\(\)\.count_valid\(\); ', b) or \
-            re.search(r'let (x\d+) = o\d+\.titer\(\)\.count_valid\(\); ', b)
-        det = 'no count_valid binding in the pct arm'
+        X = arms_if[0]
+        en = dtree.env_at(fn.hir, X, env0)
+        pos = dtree.conj(X['ch'][0], dict(en)) == ['pct']
+        pct_arm, plain_arm = (X['ch'][1], X['ch'][2]) if pos else (X['ch'][2], X['ch'][1])
+        plain_s = dtree.canon(plain_arm, dict(en))
+        pct_s = dtree.canon(pct_arm, dict(en))
+        cnt = re.search(r"(v\d+) := (?:self|\w+)\.titer\(\)\.count_valid\(\)(; )?", pct_s)
+        CV = r"(?:self|\w+)\.titer\(\)\.count_valid\(\)"
+        det = 'the pct arm does not use the valid count'
         okm = False
-        if cnt:
-            c = cnt.group(1)
-            b2 = b.replace(cnt.group(0), '')
-            b2 = re.sub(r'\((\w+) \* %s\)' % c, r'\1', b2)
-            b2 = re.sub(r'\(\((\w+) as f64\) / \(%s as f64\)\)' % c, r'(\1 as f64)', b2)
-            k = int(c[1:])
-            b3 = re.sub(r'\bx(\d+)\b', lambda m: 'x%d' % (int(m.group(1)) - 1 if int(m.group(1)) > k
-                                                              else int(m.group(1))), b2)
-            d = sib.first_diff(a, b3)
-            okm = d is None and c not in b2
+        if cnt or re.search(CV, pct_s):
+            if cnt:
+                c = cnt.group(1)
+                b2 = pct_s.replace(cnt.group(0), '')
+                k = int(c[1:])
+                b2 = re.sub(r'\bv(\d+)\b', lambda m: 'C' if m.group(0) == c else
+                            'v%d' % (int(m.group(1)) - 1 if int(m.group(1)) > k else int(m.group(1))), b2)
+            else:
+                b2 = re.sub(CV, 'C', pct_s)
+            # every divisor is multiplied by the valid count, every plain rank divided by it
+            b2 = re.sub(r"\(([\w']+) \* C\)", r'\1', b2)
+            b2 = re.sub(r"\(C \* ([\w']+)\)", r'\1', b2)
+            b3 = re.sub(r"\(([\w']+) / C\)", r'\1', b2)
+            d = sib.first_diff(plain_s, b3)
+            okm = d is None and not re.search(r'\bC\b', b3)
             det = 'arms agree after removing the valid-count factor' if okm else \
                 'first difference: %s' % (d or 'valid count used elsewhere')
-        run.ob('RANK.arms', fn, 'pct arm = plain arm / valid count', okm, loc(arms[0]), det)
+        run.ob('RANK.arms', fn, 'pct arm = plain arm / valid count', okm, loc(X), det)
+    tail = re.compile(r"for (\w+) in [\w']+\.\.self\.len\(\) \{ [\w']+\.uset\([\w']+\.uget\(\1\), NULL\);? \}")
     run.ob('RANK.arms', fn, 'nulls (sorted last) receive NaN',
-           s.count('if nan_flag { for i in idx..len { out.uset(idx_sorted.uget(i), f64::NAN.cast()) } }') == 2,
-           fn.loc(), 'nan_flag tail loop present in both arms')
-    run.ob('NULL.first-test', fn, 'vrank: all-null input is all null; empty is empty',
-           'if self.uget(idx_sorted.uget(0)).is_none() { return Vec1::full(len, IsNone::none()); }' in s and
-           'if (len == 0) { return Vec1::empty(); }' in s and 'full(len, 1.' not in s, fn.loc(),
-           'early returns: %s' % re.findall(r'return [^;]+;', s)[:3])
+           bool(tail.search(plain_s)) and bool(tail.search(pct_s)), fn.loc(),
+           'null tail loop present in both arms')
+    # early returns: empty input -> empty; first sorted element null -> all null
+    t = N.tbl(fn)
+    empty = [(cs, l) for cs, l, ef in t if l == 'Vec1::empty()']
+    alln = [(cs, l, ef) for cs, l, ef in t if re.fullmatch(r'Vec1::full\(self\.len\(\), NULL\)', l)]
+    ok_e = len(empty) == 1 and empty[0][0] == frozenset({'(0 == self.len())'})
+    ok_n = bool(alln) and all(any(re.fullmatch(r"!VALID\(self\.uget\([\w']+\.uget\(0\)\)\)", c) for c in cs)
+                              for cs, l, ef in alln) and \
+        not any(re.match(r'Vec1::full\(', l) and 'NULL' not in l for cs, l, ef in t)
+    run.ob('NULL.first-test', fn, 'vrank: all-null input is all null; empty is empty', ok_e and ok_n, fn.loc(),
+           'early returns: %s' % sorted(l for cs, l, ef in t if l.startswith('Vec1::'))[:3])
+    # argsort before any positional read
+    sorts = [x for x in walk(fn.hir) if x.get('k') == 'MethodCall' and x['method'].startswith('sort_unstable')]
+    reads0 = [x for x in walk(fn.hir) if x.get('k') == 'MethodCall' and callee_is(x, 'Vec1View::uget') and
+              peel(x['ch'][1]).get('k') == 'Lit' and peel(x['ch'][1]).get('v') == '0']
+    from facts import line_of
     run.ob('ORD.positional', fn, 'argsort before any positional read',
-           s.index('sort_unstable_by') < s.index('idx_sorted.uget(0)'), fn.loc(), 'order of sort and read')
+           bool(sorts) and bool(reads0) and max(line_of(x)[1] for x in sorts) < min(line_of(x)[1] for x in reads0),
+           fn.loc(), 'order of sort and read')
+
+
+def _outcome(row):
+    """(leaf, effects) of a row with the valid count spelled `n`"""
+    cs, leaf, ef = row
+    f = lambda x: x.replace('self.titer().count_valid()', 'n')
+    return dtree.Table([(frozenset(), f(leaf), tuple(f(e) for e in ef))])
 
 
 def partitions(run, F):
+    K1 = '(1 + kth)'
     for name in ('MapValidVec::vpartition', 'MapValidVec::varg_partition'):
         fn = F.one(name)
         ev = seqrules.run_eval(fn)
         seqrules.check_len_sites(run, fn, ev)
         ksym = seqrules.param_sym(fn, 'kth')
         seqrules.check_ret_len(run, fn, ev, lambda W, k=ksym: {k: 1, 1: 1}, 'k + 1')
-        s = src(fn.hir)
-        # general path only with n >= k + 2
-        gen = [(W, q, node) for W, q, node in ev.returns if q is not None and
-               'truncate' in s and 'to_trust' in src(node) and 'into_iter()' in src(node) and
-               'chain' not in src(node) and 'filter' not in src(node)]
-        okg = bool(gen)
-        for W, q, node in gen:
-            fs = seqrules.facts_of(ev, W)
-            vs = [k for f in fs for k in f if isinstance(k, str) and k.startswith('valid(')]
-            okg = okg and bool(vs) and lia.entails_ge0(fs, lia.add(lia.sub(lia.L(vs[0]), {ksym: 1}), lia.L(-2)))
-        run.ob('PART.nonnull', fn, 'general path needs more than k+1 valid elements', okg, fn.loc(),
-               '%d general return path(s) dominated by valid >= k + 2' % len(gen))
-        if 'varg' in name:
-            ok = 'filter_map(|(i, v)| if v.not_none() { v1::Some((i as i32)) } else { v1::None })' in s and \
-                '.chain(iter::repeat(-1)).take((kth + 1))' in s and \
-                'idx_sorted.into_iter().take(n).chain(iter::repeat(-1)).take((kth + 1))' in s
-            run.ob('PART.nonnull', fn, 'small input: indices of valid elements, padded with -1', ok, fn.loc(), '')
+        t = N.tbl(fn)
+        arg = 'varg' in name
+        if arg:
+            cmp_ = lambda rev: '|a0, a1| self.uget(a0).sort_cmp%s(self.uget(a1))' % ('_rev' if rev else '')
+            small_unsorted = ('Box::new(self.titer().enumerate().filter_map(|a0, a1| if VALID(a1) { Some(a0) } '
+                              'else { NULL }).chain(iter::repeat(-1)).take(%s).to_trust(%s))' % (K1, K1), ())
+            small_sorted = lambda rev: ('Box::new(idx.into_iter().take(n).chain(iter::repeat(-1)).take(%s).to_trust(%s))' % (K1, K1),
+                                        ('idx := Vec1Create::range(NULL, self.len(), NULL)',
+                                         'idx.sort_unstable_by(%s).unwrap()' % cmp_(rev)))
+            general = lambda rev, sort: ('Box::new(idx.into_iter().to_trust(%s))' % K1,
+                                         ('copy := self.titer().collect_trusted_vec1()',
+                                          'idx := Vec1Create::range(NULL, copy.try_as_slice_mut().len(), NULL)',
+                                          'cmp := %s' % cmp_(rev),
+                                          'idx.select_nth_unstable_by(kth, cmp)', 'idx.truncate(%s)' % K1) +
+                                         (('idx.sort_unstable_by(cmp).unwrap()',) if sort else ()))
         else:
-            ok = 'self.titer().filter(IsNone::not_none).chain(iter::repeat(IsNone::none())).take((kth + 1))' in s and \
-                'vec.into_iter().chain(iter::repeat(IsNone::none())).take((kth + 1))' in s and \
-                'if ((n == (kth + 1)) && !sort) { return Box::new(self.titer().filter(IsNone::not_none)' in s
-            run.ob('PART.nonnull', fn, 'small input: valid elements, padded with null', ok, fn.loc(), '')
-        ok = 'select_nth_unstable_by(kth, sort_func); ' in s and '.truncate((kth + 1));' in s and \
-            s.index('select_nth_unstable_by(kth') < s.index('.truncate((kth + 1))')
-        run.ob('PART.nonnull', fn, 'general path: select_nth(k) then truncate(k+1)', ok, fn.loc(), '')
+            small_unsorted = ('Box::new(self.titer().filter(IsNone::not_none).chain(iter::repeat(NULL)).take(%s).to_trust(%s))' % (K1, K1), ())
+            small_sorted = lambda rev: ('Box::new(vec.into_iter().chain(iter::repeat(NULL)).take(%s).to_trust(%s))' % (K1, K1),
+                                        ('vec := self.titer().collect_trusted_vec1()',
+                                         'vec.sort_unstable_by(|a0, a1| a0.sort_cmp%s(a1)).unwrap()' % ('_rev' if rev else '')))
+            sel = 'if rev { IsNone::sort_cmp_rev } else { IsNone::sort_cmp }'
+            general = lambda rev, sort: ('Box::new(vec.into_iter().to_trust(%s))' % K1,
+                                         ('vec := self.titer().collect_trusted_vec1()',
+                                          'vec.select_nth_unstable_by(kth, %s)' % sel, 'vec.truncate(%s)' % K1) +
+                                         (('vec.sort_unstable_by(%s).unwrap()' % sel,) if sort else ()))
+        exact_unsorted = ('Box::new(self.titer().filter(IsNone::not_none).to_trust(%s))' % K1, ())
+        bad = []
+        npts = 0
+        for sort in (False, True):
+            for rev in (False, True):
+                for n in range(5):
+                    for k in range(4):
+                        npts += 1
+                        rows = dtree.select_rows(t, {'self.titer().count_valid()': n, 'kth': k, 'sort': sort, 'rev': rev})
+                        if rows is None or len(rows) != 1:
+                            bad.append('sort=%s rev=%s n=%d k=%d: %s row(s)' % (sort, rev, n, k, 'unevaluable' if rows is None else len(rows)))
+                            continue
+                        if n > k + 1:
+                            want = general(rev, sort)
+                        elif sort:
+                            want = small_sorted(rev)
+                        elif n == k + 1 and not arg:
+                            # either spelling is the k+1 valid elements in order
+                            want = exact_unsorted
+                            if not (_outcome(rows[0]) == dtree.Table([(frozenset(), want[0], want[1])])):
+                                want = small_unsorted
+                        else:
+                            want = small_unsorted
+                        if not (_outcome(rows[0]) == dtree.Table([(frozenset(), want[0], tuple(want[1]))])):
+                            bad.append('sort=%s rev=%s n=%d k=%d: %s ; %s' % (sort, rev, n, k, rows[0][1][:70], list(rows[0][2])[:3]))
+        run.ob('PART.nonnull', fn, 'outcome per (sort, rev, valid count vs k+1)', not bad, fn.loc(),
+               '%d sample points: n > k+1 -> select_nth(k) + truncate(k+1) on a copy (then sort if asked); '
+               'n <= k+1 -> the valid elements (sorted if asked) padded to k+1' % npts +
+               ('' if not bad else ' ; ' + ' | '.join(bad[:3])))
 
 
 def pct_of(run, F):
